@@ -476,3 +476,19 @@ package bchutil
 //@   assert after serialize#1: $arg0 == a
 //@   assert after Hash160#1: sameobj($arg0, $ret_serialize#1) && len($arg0) == len($ret_serialize#1) && $arg0.off == $ret_serialize#1.off
 //@   assert after encodeLegacyAddress#1: sameobj($arg0, $ret_Hash160#1) && len($arg0) == len($ret_Hash160#1) && $arg0.off == $ret_Hash160#1.off && $arg1 == a.pubKeyHashID
+
+//@ func bchutil.(Amount).Format
+//@   requires -1000 <= int(u) && int(u) <= 1000
+//@   ensures $calls_ToUnit == 1 && $calls_FormatFloat == 1 && $calls_String == 1
+//@   modifies nothing
+//@   assert after String#1: $arg0 == u
+//@   assert after ToUnit#1: $arg0 == a && $arg1 == u
+//@   assert after FormatFloat#1: $arg0 == $ret_ToUnit#1 && $arg1 == 102 && $arg2 == 0 - int(u + 8) && $arg3 == 64
+
+//@ func bchutil.(Amount).String
+//@   ensures $calls_Format == 1 && sameobj(result, $ret_Format#1) && len(result) == len($ret_Format#1)
+//@   modifies nothing
+//@   assert after Format#1: $arg0 == a && $arg1 == AmountBCH
+
+//@ func bchutil.(AmountUnit).String
+//@   modifies nothing
